@@ -231,10 +231,8 @@ def check_input(
 
             sig = inspect.signature(_unwrap_fn(wrapped))
             is_method = [*sig.parameters][0] in ("self", "cls")
-            if is_method and len(args) == len(sig.parameters) - 1:
-                pos_args = sig.bind_partial(None, *args).arguments
-            else:
-                pos_args = sig.bind_partial(*args).arguments
+            # the instance / class is always among the positional arguments
+            pos_args = sig.bind_partial(*args).arguments
 
             if isinstance(obj_getter, int):
                 try:
@@ -254,11 +252,6 @@ def check_input(
                     kwargs[obj_getter] = schema.validate(
                         kwargs[obj_getter], *validate_args
                     )
-                elif is_method and len(args) == len(sig.parameters) - 1:
-                    pos_args[obj_getter] = schema.validate(
-                        pos_args[obj_getter], *validate_args
-                    )
-                    args = list(pos_args.values())
                 else:
                     validated = schema.validate(
                         pos_args[obj_getter], *validate_args
